@@ -135,7 +135,7 @@ def _shard(arg):
     holder = {}
     from hypothesis.stateful import rule
 
-    @rule(i=machines.SK, ki=machines.IDX, v=st.sampled_from([CEIL - 2, CEIL - 1, CEIL, CEIL + 1, 2**31, 2**33, 2**40]))
+    @rule(i=machines.SK, ki=machines.IDX, v=st.sampled_from([CEIL - 2, CEIL - 1, CEIL, CEIL + 1, 2**31, 2**33, 2**40, 2**63, 2**64 - 1, 2**64, 10**30]))
     def add_big_linear(self, i, ki, v):
         if self.world.kind == "linear":
             self.do({"op": "add", "i": i % self.N, "k": self.key(ki), "v": v})
